@@ -228,7 +228,10 @@ CLAIMED = {
             "(fixed structs, u16-prefixed QE auth data, u16+u32-prefixed certification data, custom message) is "
             "parsed back field by field for every well-formed envelope with auth / cert data of any admissible "
             "length (parse (build e) = e); a message cut into any pages within the limit is reassembled exactly and "
-            "more pages than allowed are refused. Acceptance with exactly the device's values is the composition "
+            "more pages than allowed are refused; the base64 codec round-trips every byte string "
+            "(x509_message_roundtrip) and from_pem - collapse white space, delete both markers, strip, decode - "
+            "applied to the PEM text of any certificate at any line width yields exactly its DER bytes "
+            "(pem_text_roundtrip). Acceptance with exactly the device's values is the composition "
             "with C06/C07/C08 under the hypothesis that signatures verify. Tied to the code end to end: simulated "
             "genuine Ledger and SGX devices (real keys) are driven through the real DongleAdmin endorsement calls, "
             "ledger_attestation / sgx_attestation do_attestation, save+load and the real verify commands; the "
